@@ -3,6 +3,7 @@ CONSTANTS
   MaxTotal = 3
   MaxKeys = 1
   MaxCount = 3
+  ZeroCounts = FALSE
   NAlpha = 3
 INIT MInit
 NEXT MNext
